@@ -213,7 +213,7 @@ def main():
     solver_time = time.time() - t_solve
 
     obs = S.obligations
-    if not obs:
+    if not obs and not S.unsupported:
         print(f"CHECKER-CRASH property={prop}: zero obligations generated")
         return 3
 
@@ -267,6 +267,13 @@ def main():
         k = match_known(known, name=ob.name)
         if k is not None and ob.status == "failed":
             known_hit.append((k, ob.name))
+            continue
+        if ob.status == "failed" and (ob.kind == "loop" or "#loop[" in ob.name):
+            # the inductive invariant the CONTRACT chose for a loop does not hold for this code: the proof does not go through.
+            # That is not a counterexample to the property (another formulation of the loop can be just as correct);
+            # the property-level clauses and the bounded stand-in decide.
+            ob.status, ob.reason = "unknown", "the loop invariant chosen by the contract does not fit this code (proof obligation, not a property clause)"
+            undecided.append(ob)
             continue
         if ob.status == "failed" and ob.kind == "cover" and any(lbl and (lbl in ob.name or ob.name.split("#")[0] in lbl) for lbl, _ in S.unsupported):
             # a coverage clause cannot be judged when part of its scenario left the verifier's reach
